@@ -156,6 +156,80 @@ def o4(W, ob):
                      'reset_prediction stores %s into first_incorrect_frame' % val, where(r, w['line']))
 
 
+def o4b(W, ob):
+    """prediction mode is left only when every frame requested so far has been compared with its real input"""
+    f = W.fn(IQ + '::add_input_by_frame')
+    cx = W.ctx(f)
+    G = W.guards(f)
+    st = [w for w in W.writes() if w['fn'] is f and w['kind'] == 'store' and w['ap'].s(f) == 'self.prediction.frame']
+    ob.require_count(len(st), 2, 'stores to prediction.frame in add_input_by_frame')
+    exits = 0
+    for w in st:
+        v = key(cx.expr_rvalue(w['site'].rv))
+        g = G.guard(w['bb'])
+        if v in ('NULL_FRAME', '-1'):
+            exits += 1
+            caught_up = every_disjunct_has(g, lambda a: match_lin(a, [(exact('self.prediction.frame'), 1), (exact('self.last_requested_frame'), -1)], eq=0))
+            clean = every_disjunct_has(g, lambda a: match_lin(a, [(exact('self.first_incorrect_frame'), 1)], eq=-1))
+            ob.check(caught_up and clean, 'add_input_by_frame|leave-prediction',
+                     'prediction mode is left only when the frame just added is the last one requested and no misprediction is pending',
+                     'prediction mode is left (prediction.frame := NULL) without `prediction.frame == last_requested_frame` (caught up=%s) and `first_incorrect_frame == NULL` '
+                     '(clean=%s): real inputs of frames already simulated with the prediction would be stored without being compared' % (caught_up, clean),
+                     where(f, w['line']), witness=dnf_str(g)[:400])
+        else:
+            ob.check(v == '(self.prediction.frame Add 1)', 'add_input_by_frame|advance-prediction', 'otherwise the prediction frame advances by one',
+                     'prediction.frame := %s' % v, where(f, w['line']))
+    ob.require_count(exits, 1, 'prediction-mode exits')
+    # every real input that arrives while predicting is compared: the comparison is reached whenever prediction.frame != NULL
+    cmp_blocks = [w['bb'] for w in W.writes_to_field('first_incorrect_frame')[0] if w['fn'] is f]
+    for b in cmp_blocks:
+        g = G.guard(b)
+        extra = [a for c in g for a in c if a[0] == 'lin' and any('last_requested_frame' in k for k, _ in a[1])]
+        ob.check(not extra, 'add_input_by_frame|compare-every-input', 'the comparison does not depend on what was requested',
+                 'the misprediction comparison is skipped depending on last_requested_frame', where(f))
+    # InputQueue::input asserts that nothing is fetched while a misprediction is pending, and records the request
+    i = W.fn(IQ + '::input')
+    Gi = W.guards(i)
+    st = stores_in(W, i, 'last_requested_frame')
+    ok = len(st) == 1 and key(W.ctx(i).expr_rvalue(st[0]['site'].rv)) == 'arg2' and \
+        every_disjunct_has(Gi.guard(st[0]['bb']), lambda a: match_lin(a, [(exact('self.first_incorrect_frame'), 1)], eq=-1))
+    others = [a for c in (Gi.guard(st[0]['bb']) if st else []) for a in c if not match_lin(a, [(exact('self.first_incorrect_frame'), 1)], eq=-1)]
+    ob.check(ok and not others, 'InputQueue::input|records-request', 'every fetch records the requested frame, and is asserted to happen with no pending misprediction',
+             'InputQueue::input does not unconditionally record last_requested_frame behind the no-pending-misprediction assertion', where(i))
+
+
+def o2b(W, ob):
+    """a rollback resets the prediction state of every queue"""
+    f = W.fn(SL + '::reset_prediction')
+    G = W.guards(f)
+    calls = [t for t in f.calls() if callee_matches(t.callee, IQ + '::reset_prediction')]
+    ob.require_count(len(calls), 1, 'InputQueue::reset_prediction call in SyncLayer::reset_prediction')
+    for t in calls:
+        g = G.guard(t.bb)
+        extra = [a for c in g for a in c if a[0] != 'is']
+        ob.check(not extra, 'SyncLayer::reset_prediction|every-queue', 'every queue is reset on a rollback',
+                 'SyncLayer::reset_prediction skips queues under `%s`: a queue that keeps its sticky prediction across a rollback ignores real inputs it already holds for '
+                 'the resimulated frames' % dnf_str(g)[:200], where(f, t.line))
+    rng = [s for s in f.stmts() if s.k == 'assign' and s.rv.k == 'agg' and s.rv.j.get('ak') == 'adt' and s.rv.j['adt'].endswith('ops::Range')]
+    cx = W.ctx(f)
+    okr = any(key(cx.expr_operand(dict(zip(s.rv.j['fields'], s.rv.ops))['end'])) in ('self.num_players', 'len(self.input_queues)') and
+              dict(zip(s.rv.j['fields'], s.rv.ops))['start'].const_int() == 0 for s in rng)
+    it = [t for t in f.calls() if last_seg(t.callee.best) in ('iter_mut', 'into_iter') and t.args and t.args[0].is_place() and
+          'input_queues' in cx.ap_carry(t.args[0].place).s(f)]
+    ob.check(okr or bool(it), 'SyncLayer::reset_prediction|all-players', 'the reset iterates over all players', 'the reset does not iterate over 0..num_players', where(f))
+    q = W.fn(IQ + '::reset_prediction')
+    want = {'prediction.frame', 'first_incorrect_frame', 'last_requested_frame'}
+    got = set()
+    for w in W.writes():
+        if w['fn'] is q and w['kind'] == 'store':
+            k2 = w['ap'].s(q)[len('self.'):]
+            v = key(W.ctx(q).expr_rvalue(w['site'].rv))
+            if v in ('NULL_FRAME', '-1') and W.guard(q, w['bb']) == [[]]:
+                got.add(k2)
+    ob.check(want <= got, 'InputQueue::reset_prediction|clears', 'reset_prediction clears prediction.frame, first_incorrect_frame and last_requested_frame',
+             'InputQueue::reset_prediction does not unconditionally clear %s' % sorted(want - got), where(q))
+
+
 def _order_in(W, ob, f, firsts, then, keyp, what):
     for first, mode in firsts:
         must_precede(W, ob, f, first, then, keyp, first_mode=mode,
@@ -375,6 +449,10 @@ OBLIGATIONS = [
      'that precedes the single frame-counter increment paired with it.', o3),
     ('C01.O4', 'misprediction marker', 'first_incorrect_frame is written only by reset_prediction (NULL) and by '
      'add_input_by_frame under `unset & predicting & mismatch`, storing the frame added.', o4),
+    ('C01.O4b', 'leaving prediction mode', 'prediction.frame is reset to NULL in add_input_by_frame only under prediction.frame == last_requested_frame and '
+     'first_incorrect_frame == NULL (all requested frames compared); InputQueue::input records every request.', o4b),
+    ('C01.O2b', 'a rollback resets every queue', 'SyncLayer::reset_prediction calls InputQueue::reset_prediction for every player unconditionally, which clears the '
+     'three prediction fields.', o2b),
     ('C01.O5', 'send/rollback before discard', 'set_last_confirmed_frame is preceded by the rollback step and the '
      'spectator broadcast, receives the confirmed frame, and discards only below it, capped by the last requested '
      'frame.', o5),
